@@ -102,7 +102,7 @@ PROPS = {
             {"sub": "sched", "quick": ["--seed", "{seed}", "--what", "mt", "--mt-cases", 400],
              "thorough": ["--seed", "{seed}", "--what", "mt", "--mt-cases", 40000], "timeout": 20000},
             {"sub": "graphs", "quick": ["--seed", "{seed}", "--runner", "mt", "--cases", 50, "--configs", 3],
-             "thorough": ["--seed", "{seed}", "--runner", "mt", "--cases", 3000, "--configs", 6], "timeout": 40000},
+             "thorough": ["--seed", "{seed}", "--runner", "mt", "--cases", 600, "--configs", 5], "timeout": 40000},
         ],
         "rule": "generated graphs over the block library (1-2 vector sources of u8/u32/f32/complex, lengths 0..3 capacities, "
                 "repeat 1-2; up to 6 stages from 30 block kinds incl. rate changers, filters, tee/merge diamonds, packet "
@@ -328,25 +328,32 @@ PROPS = {
     },
     "C16": {
         "required_theorems": ["c16_repeat_algebra", "c16_underflow_only_when_done", "c16_infinite", "c16_vector",
-                              "c16_vector_zero", "c16_marker_tags"],
+                              "c16_vector_zero", "c16_marker_tags", "c16_file", "c16_file_step", "c16_file_zero",
+                              "c16_sigmf", "c16_sigmf_zero"],
         "runs": [
             {"sub": "sources", "quick": ["--seed", "{seed}", "--cases", 400, "--files", 80, "--depth", 6],
              "thorough": ["--seed", "{seed}", "--cases", 20000, "--files", 3000, "--depth", 8], "timeout": 20000},
         ],
         "rule": "Repeat API: every call sequence over {again, done, count} to the given depth from finite(0..3) and infinite "
                 "(exhaustive); VectorSource: data length 0..3000 x repeat {0,1,2,3,inf} x random work/drain schedules through a "
-                "one-page stream, compared call by call (verdict, produced, tags) with the Lean model; FileSource and SigMFSource "
-                "(recording files): same grid on real temp files, total output must equal data x repeat, EOF exactly at the end, "
+                "one-page stream, compared call by call (verdict, produced, tags) with the Lean model; FileSource<u32> and "
+                "SigMFSource<f32> on real temp files of 0..9000 bytes (whole and non-whole numbers of samples, around the "
+                "stream size and the 8192-byte reader buffer) x repeat {0,1,2,3,inf} x random work/drain schedules, compared "
+                "call by call with their Lean models (fsrc, sgsrc); FileSource and SigMFSource (recordings and tar archives): "
+                "total output must equal data x repeat, EOF exactly at the end, "
                 "nothing after EOF, no EOF and periodic output for infinite. distinct = distinct request.",
         "trusted_base": GLOBAL_TB + [
-            "FileSource/SigMFSource are checked against the spec on the real code, not modelled in Lean (read() segmentation is C14)",
+            "FileSource model: std::io::BufReader<File>::read as modelled (capacity 8192: serve from the buffer, else refill, "
+            "or read directly for requests >= capacity); the theorem only uses 0 < n <= min(request, remaining) and n = 0 iff at the end",
+            "SigMFSource model: File::read on a regular file returns the whole request while bytes remain; the archive (tar) "
+            "range computation is checked on the real code only (!src lines)",
             "u64 arithmetic with overflow checks on (release profile of the crate)",
         ],
         "assumptions": [],
     },
     "C13": {
         "required_theorems": ["c13_table", "c13_crc_is_x25", "c13_crc_gate", "c13_bounds", "c13_abort", "c13_roundtrip",
-                              "c13_frames", "c13_destuff", "c13_resync", "c13_after_noise", "c13_single_bit_detected", "c13_two_bits_detected", "c13_fix_repairs"],
+                              "c13_frames", "c13_destuff", "c13_resync", "c13_after_noise", "c13_single_bit_detected", "c13_two_bits_detected", "c13_fix_repairs", "c13_checksum_field_errors"],
         "runs": [
             {"sub": "hdlc", "quick": ["--seed", "{seed}", "--cases", 2500],
              "thorough": ["--seed", "{seed}", "--cases", 200000], "timeout": 20000},
@@ -560,7 +567,8 @@ MANIFEST_TEXT = {
                 "(so for every block behaviour and every add order): run() returns Ok without cancellation only after a pass "
                 "in which no block failed, none answered Again/Pending and no stream activity happened; a pass that moved "
                 "data is never the last; and, for deterministic blocks whose quiet calls change nothing, such a state is a "
-                "fixpoint (no block can make further progress). The model is tied to the real runner by exact call-log "
+                "fixpoint (no block can make further progress); and the loop always returns (c06_terminates: a potential "
+                "function, remaining script entries plus final EOF answers, drops with every call). The model is tied to the real runner by exact call-log "
                 "comparison on random scripted blocks. The 'reference result' half is shared with C05.",
         "design_ref": "DESIGN.md section 2, C06",
         "note": "The runner defect (done-rule ignored progress) was repaired by a fix: commit; the model mirrors the fixed code. "
@@ -593,19 +601,20 @@ MANIFEST_TEXT = {
     "C08": {
         "text": "Lean 4 theorems: (1) for the WHOLE sync/sync_tag family (any arity, any stateful per-sample function) every "
                 "chunking of the input yields the one-shot result, state and tags (driveG_eq_oneShot, by induction over the "
-                "list of chunk sizes) and the generated work() on windows equals the loop on the histories; (2) Skip, Delay and "
-                "RtlSdrDecode: for EVERY schedule of (readable, free) pairs the cumulative output is the closed form, no panic. "
+                "list of chunk sizes) and the generated work() on windows equals the loop on the histories; (2) Skip, Delay, "
+                "RtlSdrDecode, FirFilter (any arithmetic, any decimation), RationalResampler (incl. an output that fills in the "
+                "middle of the copies of one sample) and - in C11 - the FFT filter: for EVERY schedule of (readable, free) pairs the cumulative output is the closed form, no panic. "
                 "All other blocks: the real block is run drip-fed and greedy and must deliver bit-identical output (model-free), "
                 "modelled blocks are also compared call by call with the Lean model.",
         "design_ref": "DESIGN.md section 2, C08",
-        "note": "Proof covers the blocks named in RR/Props/C08.lean; RationalResampler is modelled and correspondence-tied, its "
-                "closed form not yet proved; FIR/FFT/Hilbert/SymbolSync/ZeroCrossing/deframers/converters are checked on the real "
-                "code only. Many chunking defects were repaired by fix: commits (see KNOWN_FINDINGS.txt).",
+        "note": "Proof covers the blocks named in RR/Props/C08.lean (sync family, Skip, Delay, RtlSdrDecode, FirFilter, "
+                "RationalResampler; FftFilter in C11, StreamToPdu in C10); Hilbert/SymbolSync/ZeroCrossing/deframers and the "
+                "remaining converters are checked on the real code (drip-fed vs greedy), some also against Lean models. Many chunking defects were repaired by fix: commits (see KNOWN_FINDINGS.txt).",
         "technique": "Lean 4 proof (induction over arbitrary schedules) + drip-feed correspondence + real-vs-real chunking differential",
     },
     "C09": {
-        "text": "Lean 4 theorems about work() on an arbitrary view for the sync family (any block built with the macro), Skip and "
-                "RtlSdrDecode: consumption/commit within the windows; a wait names a stream that really lacks the amount; when no "
+        "text": "Lean 4 theorems about work() on an arbitrary view for the sync family (any block built with the macro), Skip, "
+                "RtlSdrDecode and FirFilter (c09_fir: it asks for exactly ntaps+deci-1 samples, with which it will progress): consumption/commit within the windows; a wait names a stream that really lacks the amount; when no "
                 "stream lacks anything the call progresses; Again only with progress; ended+drained inputs are reported. For every "
                 "other block the same acceptor runs on real traces with the stream-identity hook.",
         "design_ref": "DESIGN.md section 2, C09",
@@ -644,7 +653,8 @@ MANIFEST_TEXT = {
         "text": "Lean 4 theorems: every plain sync block forwards each tag of its first input exactly once on the output position "
                 "of its sample, for every chunking; every generated work() hands produce(n, tags) only tags with pos < n (so "
                 "unprocessed samples keep their tags in the stream); Skip and Delay forward exactly the tags of the copied "
-                "samples (Delay shifted by the zeros of that call). Other tag-carrying blocks: identical tag multisets between a "
+                "samples (Delay shifted by the zeros of that call); FirFilter forwards the tags of exactly the consumed samples "
+                "at index/decimation, inside the committed outputs (c12_fir). Other tag-carrying blocks: identical tag multisets between a "
                 "drip-fed and a greedy real run, plus model comparison for correlator/burst tagger.",
         "design_ref": "DESIGN.md section 2, C12",
         "note": "The unfiltered-tags defects in Skip/FirFilter/Hilbert/Delay/FftFilter/Cma were repaired by fix: commits.",
@@ -654,9 +664,11 @@ MANIFEST_TEXT = {
         "text": "Lean 4 theorems: the Repeat counter algebra (k <= n calls of again() succeed, continue-flags, count, done iff "
                 "exhausted, underflow iff called when done, infinite never done) and, for VectorSource, for EVERY consumption "
                 "schedule the cumulative output is whole repetitions plus a prefix of the data and an EOF answer implies exactly n "
-                "repetitions were emitted; marker tags only on the first sample of a repetition. Tied to the code by exhaustive "
-                "Repeat call sequences and call-by-call VectorSource correspondence; FileSource/SigMFSource are checked on the "
-                "real code against the same specification.",
+                "repetitions were emitted; marker tags only on the first sample of a repetition. The same theorem for FileSource "
+                "(bytes read through a buffered reader with short reads, files that end in a partial sample: the partial sample "
+                "is never carried into the next repetition) and SigMFSource. Tied to the code by exhaustive "
+                "Repeat call sequences and call-by-call correspondence of all three sources on real files; archives are checked "
+                "on the real code against the same specification.",
         "design_ref": "DESIGN.md section 2, C16",
         "note": "The repeat(0) defects of FileSource/SigMFSource and the VectorSource::first duplication were repaired by fix: commits.",
         "technique": "Lean 4 proof (induction over consumption schedules) + exhaustive API correspondence + spec check on real files",
@@ -678,8 +690,9 @@ MANIFEST_TEXT = {
         "note": "Five deframer defects were repaired by fix: commits (len<2 panic, max_size equality, shared-zero flags, flag in "
                 "progress lost at the too-long reset). Proved too: every single-bit and double-bit corruption of the data (frames < 4095 bytes) "
                 "is rejected and the single-bit repair returns the original (the CRC step is a linear bijection whose orbit "
-                "through the single-bit states has length exactly 32767, by kernel evaluation). Corruptions that hit the "
-                "checksum field together with the data are covered by correspondence only.",
+                "through the single-bit states has length exactly 32767, by kernel evaluation). One data bit + one checksum bit, and any corruption of the "
+                "checksum alone, are rejected too (c13_checksum_field_errors); with bit fixing on, double errors may be "
+                "'repaired' into a different frame (inherent to single-bit repair) - covered by correspondence.",
         "technique": "Lean 4 proof over a model with translator-generated CRC table + differential correspondence with an independent encoder",
     },
     "C17": {
